@@ -9,6 +9,8 @@ open Genshi Genshi.Heap Genshi.Sexp
   expr   ( v s<name> ) | ( l val ) | ( eq e e ) | ( not e ) | ( call s<f> ) | ( call s<f> e )
   ref    ( t n ) | ( p n )
   ev     ( O <event> ) | ( X expr ) | ( S ref ref ) | ( I t|N ref|N ) | U
+         | ( A qname ( ( qname s<plain> ) | ( qname ref ) )* )      START with interpolated attribute values
+  aspec  ( D ( s<key> expr )* ) | ( P ( s<key> expr )* ) | ( X expr )     the expression of py:attrs
   dir    ( id kind args* )
   cell   ( E ev* ) | ( D dir* )
   act    a | ( o ( ( s<key> val )* ) ) | ( n i ) | x | p | r     (atoms must not start with `s`)
@@ -48,8 +50,26 @@ def ref? : Sexp → Option Ref
   | .list [.atom "p", n] => n.toNat?.map .priv
   | _ => none
 
+def aval? : Sexp → Option (QName × AVal)
+  | .list [n, .str v] => (QName.ofSexp? n).map fun n => (n, .plain v)
+  | .list [n, r] => do let n ← QName.ofSexp? n; let r ← ref? r; pure (n, .interp r)
+  | _ => none
+
+def entries? (kvs : List Sexp) : Option (List (Str × Expr)) :=
+  kvs.mapM fun
+    | .list [.str k, e] => (expr? e).map fun e => (k, e)
+    | _ => none
+
+def aspec? : Sexp → Option AttrsSpec
+  | .list (.atom "D" :: kvs) => (entries? kvs).map .dict
+  | .list (.atom "P" :: kvs) => (entries? kvs).map .pairs
+  | .list [.atom "X", e] => (expr? e).map .expr
+  | _ => none
+
 def tev? : Sexp → Option TEv
   | .list [.atom "O", e] => (Event.ofSexp? e).map .out
+  | .list [.atom "A", t, .list attrs] => do
+      let t ← QName.ofSexp? t; let attrs ← attrs.mapM aval?; pure (.startI t attrs)
   | .list [.atom "X", e] => (expr? e).map .expr
   | .list [.atom "S", d, b] => do let d ← ref? d; let b ← ref? b; pure (.sub d b)
   | .atom "U" => some .other
@@ -75,6 +95,7 @@ def dir? : Sexp → Option Dir
       | "otherwise", [] => some .pyOtherwise
       | "unwrap", [e] => (optExpr? e).map .pyStrip
       | "match", [.str n, once] => once.toBool?.map (.pyMatch n)
+      | "attrs", [a] => (aspec? a).map .pyAttrs
       | "def", [.str n, .list ps] => do
           let ps ← ps.mapM fun
             | .list [.str pn, d] => (optExpr? d).map fun d => (pn, d)
